@@ -6,27 +6,38 @@ BASE_NOTE = ("Trusted: Lean 4.33 kernel; axioms limited to propext/Classical.cho
              "the hand-written model (lean/Pds/Model) is tied to /repo only by differential testing through harness/ (scripted hasher + RNG, "
              "same ops on real crate and compiled model) and by tools/translate.py for constants; std hashing, rand decoding, fixedbitset, "
              "succinct, serde_json and libm are modelled, not verified.")
+T = "Lean 4 theorems over a hand-written model + differential correspondence (real crate vs compiled model) + trace oracle"
+TS = "Lean 4 theorems (deterministic/combinatorial core) + differential correspondence + sampling experiment on the real crate as failing-input search"
 CLAIMS = {
- "C17": dict(text="Full: registers = per-register max rank over the set of added hashes, proved for every b in 4..18 and every hash list "
-                  "(induction over the list); perm/dup invariance, rank characterisation, reconstruction round trip. count() is tied by "
-                  "correspondence (model of count over regenerated tables).", design="7/C17",
-             technique="Lean 4 theorems over a hand-written model + differential correspondence (harness vs compiled model) + trace oracle"),
- "C19": dict(text="Full in the model: for each of the nine models clear(s) equals the constructor's state for s's configuration (state equality, "
-                  "up to the RNG position for cuckoo/reservoir), including TDigest's sample counter. clone independence is trivial on immutable "
-                  "model states; Rust-side aliasing (Rc, RefCell) is covered by the correspondence: clone, divergent mutation, observation.", design="7/C19",
-             technique="Lean 4 state-equality theorems per structure + differential correspondence with cleared-vs-fresh and clone/mutate histories"),
- "C20": dict(text="Full in the model: deserialize(serialize s) = s for every valid sketch, every successful deserialisation satisfies the "
-                  "constructor invariants, duplicates/omissions/unknown fields/non-byte registers are errors. serde_json's parsing of text into "
-                  "typed fields is trusted; documents with b and registers length varied independently are run through the real deserialiser.", design="7/C20",
-             technique="Lean 4 theorems over a document-level model of visit_map + differential correspondence on generated (mal)formed documents"),
+ "C01": dict(text="Full for the model: no-false-negative theorems for Bloom (bit monotonicity), cuckoo (multiset refinement, robust to failed inserts/unions and deletes of present elements), quotient (set refinement) and the list-as-set reference; union contains both operands.", design="7/C01", technique=T),
+ "C02": dict(text="Full for the model: for every w,d>=1, counter maximum, hasher and non-overflowing history of add_n/merge/clear: true weight <= query_point <= stream total, add returns the new query_point, single-element streams exact, indices in range, overflow is an error never a wrap.", design="7/C02", technique=T),
+ "C03": dict(text="Partial: theorems carry totality of count() on every register vector for all 15 precisions (all table indices in range over the regenerated tables), table shape/calibration facts by kernel evaluation, empty => 0; the RMS/mean/tail error bounds over hash seeds are NOT a theorem - they are checked by a sampling experiment (>=5 sigma margins) used as failing-input search.", design="7/C03, 9", technique=TS),
+ "C04": dict(text="Partial: theorems carry sortedness of merged centroids, the backlog bound, the greedy k-size invariant and the centroid bound for K0 over any ordered field; the rank-error bound c*W+2/n and the delta+3 bound for K1-K3 are NOT theorems - sampling experiment only.", design="7/C04, 9", technique=TS),
+ "C05": dict(text="Partial beyond n=4k+1: exact uniformity P(position in reservoir)=k/n proved as a counting identity over all draw sequences for every k>=1, k<=n<=4k, and at the switch n=4k+1 (given the gap-zero fraction k/(4k+1), which the geometric-law lemma over the reals provides); skip semantics next = i+1+g. The size of the gap-sampling bias beyond 4k+1 is NOT a theorem - sampling experiment.", design="7/C05, 9", technique=TS),
+ "C06": dict(text="Full for the model: merge/union equals processing both streams for Bloom, CMS, HLL (state equality; commutative, associative, idempotent where set-like), cuckoo (multiset sum when Ok) and quotient filter (set union when Ok).", design="7/C06", technique=T),
+ "C07": dict(text="Partial: theorems carry the sizing arithmetic and counting bounds that do not depend on hash distribution; the Bloom 1.3p rate, cuckoo no-Full-within-n and len() sampling error are NOT theorems - sampling experiment over hasher seeds.", design="7/C07, 9", technique=TS),
+ "C08": dict(text="Partial: theorems carry the table-level facts (C02 bounds, additivity) and sizing; near-independence of double-hashed rows under SipHash is NOT a theorem - the (epsilon,delta) guarantee itself is checked by a sampling experiment with adversarial heavy hitters.", design="7/C08, 9", technique=TS),
+ "C09": dict(text="Full for the model: n = #adds, add reports new iff untracked, undercount invariant f <= true <= f+delta with delta+1 <= ceil(n/width), no miss / no intruder over the rationals for every threshold and epsilon >= 1/width, and the Manku-Motwani size bound width*H(ceil(n/width)) (sharper than the stated +1 form).", design="7/C09", technique=T),
+ "C10": dict(text="Full for the model: add never panics (also 1x1 sketch), the two indexes stay consistent, iter yields min(k, distinct) distinct added elements, held counts are sandwiched true <= n <= true+E, a missing element is justified by k held elements within E, exact top-k when collision-free.", design="7/C10", technique=T),
+ "C11": dict(text="Theorems: block arithmetic of the packed tables is tight (e*len <= 64*blocks < e*len+64) and container sizes are functions of the configuration; the tie below the API is a heap measurement with a counting allocator compared against the model's byte formula (exact for cuckoo/quotient tables) and against the documented sizes within 2x+slack for all nine structures across stream lengths, clear and failed operations.", design="7/C11", technique="Lean 4 theorems on block/size arithmetic + exact heap-byte correspondence (counting allocator) + measurement sweep"),
+ "C12": dict(text="Full for the model: a failed cuckoo insert (after any number of evictions, any RNG) or union (failing at any transferred fingerprint) restores exactly the original table and count; quotient insert/union failures return the untouched state; the other operand is an immutable argument.", design="7/C12", technique=T),
+ "C13": dict(text="Quotient filter as an exact set of (quotient, remainder) classes: refinement theorems as far as proved (see evidence: theorem list), plus exhaustive insertion orders for tiny tables in the correspondence.", design="7/C13", technique=T),
+ "C14": dict(text="Full for the model: cuckoo filter refines a multiset of fingerprint classes for every hasher, RNG and kick limit: insert Ok => true and +1 copy after any eviction chain, delete removes exactly one copy iff present, query iff present, len = ok inserts - ok deletes, insert succeeds below bucketsize, class = the property's own indistinguishability.", design="7/C14", technique=T),
+ "C15": dict(text="Exact-arithmetic theorems (any ordered field, any scale function): quantile/cdf monotone, within [min,max]/[0,1], end values, mutual consistency for strict knots, reads idempotent; IEEE rounding is outside the theorems and covered by the float-level correspondence and oracle with the stated ulp allowance.", design="7/C15", technique=T),
+ "C16": dict(text="Exact-arithmetic theorems (any ordered field, scale function, backlog size, read positions): count = sum of weights, sum/mean exact, min/max exact, zero weight no-op, is_empty iff no positive weight; floating-point accumulation accuracy is checked numerically by the oracle.", design="7/C16", technique=T),
+ "C17": dict(text="Full: registers = per-register max rank over the set of added hashes, proved for every b in 4..18 and every hash list (induction over the list); perm/dup invariance, rank characterisation, reconstruction round trip. count() is tied by correspondence (model of count over regenerated tables).", design="7/C17", technique=T),
+ "C18": dict(text="Full for the model: for every k>=1, every n and every lawful RNG (any gap function): add is total, size = min(n,k), items are distinct stream positions, prefix while n<=k, i()=n, is_empty iff n=0; arbitrary item lists by relabelling.", design="7/C18", technique=T),
+ "C19": dict(text="Full in the model: for each of the nine models clear(s) equals the constructor's state for s's configuration (state equality, up to the RNG position for cuckoo/reservoir), including TDigest's sample counter. clone independence is trivial on immutable model states; Rust-side aliasing (Rc, RefCell) is covered by the correspondence: clone, divergent mutation, observation.", design="7/C19", technique="Lean 4 state-equality theorems per structure + differential correspondence with cleared-vs-fresh and clone/mutate histories"),
+ "C20": dict(text="Full in the model: deserialize(serialize s) = s for every valid sketch, every successful deserialisation satisfies the constructor invariants, duplicates/omissions/unknown fields/non-byte registers are errors. serde_json's parsing of text into typed fields is trusted; documents with b and registers length varied independently are run through the real deserialiser.", design="7/C20", technique="Lean 4 theorems over a document-level model of visit_map + differential correspondence on generated (mal)formed documents"),
 }
+ENABLED = ["C05", "C09", "C10", "C12", "C14", "C17", "C18", "C19", "C20"]
 NOT_YET = "not yet built in this round (planned: Lean model + theorems + correspondence, see DESIGN.md section 7)"
 def main():
     props = [json.loads(l) for l in open(os.path.join(ROOT, "properties.jsonl"))]
     checks, na = [], []
     for p in props:
         pid = p["id"]
-        if pid in CLAIMS:
+        if pid in CLAIMS and pid in ENABLED:
             c = CLAIMS[pid]
             checks.append({
                 "property_id": pid,
@@ -43,12 +54,12 @@ def main():
             na.append({"property_id": pid, "reason": NOT_YET})
     man = {
         "version": 1,
-        "setup_cmd": "python3 tools/translate.py && (cd lean && lake build Pds pds_model) && (cd harness && cargo build --release --offline)",
+        "setup_cmd": "python3 tools/translate.py && (cd lean && lake build Pds pds_model " + " ".join("Pds.Props." + p for p in sorted(ENABLED)) + ") && (cd harness && cargo build --release --offline)",
         "hooks": {"guard": "pdatastructs_verif", "enable": "none needed: all observations go through the public API (no hooks in /repo)",
                   "baseline_off_cmd": "cd /repo && cargo test --workspace --no-fail-fast --offline", "source_commits": [], "add_only": True},
         "engines": [
-            {"name": "lean-model", "path": "lean/", "serves_properties": sorted(CLAIMS), "kind_free_text": "Lean 4 model, theorems (Pds/Props), compiled driver pds_model"},
-            {"name": "pds-harness", "path": "harness/", "serves_properties": sorted(CLAIMS), "kind_free_text": "Rust harness linking the real crate: generators, replay, trace oracles"},
+            {"name": "lean-model", "path": "lean/", "serves_properties": sorted(ENABLED), "kind_free_text": "Lean 4 model, theorems (Pds/Props), compiled driver pds_model"},
+            {"name": "pds-harness", "path": "harness/", "serves_properties": sorted(ENABLED), "kind_free_text": "Rust harness linking the real crate: generators, replay, trace oracles"},
         ],
         "checks": checks,
         "not_applicable": na,
